@@ -36,6 +36,7 @@ PROPS = {
     "C02": {
         "groups": [{"name": "json", "tags": "verif", "run": "^VH_C02_", "flags": {"harness-timeout": 280},
                     "quick": {"params": "strlen=2"}, "thorough": {"params": "strlen=3", "harness-timeout": 3000}}],
+        "cross_solver": {"run": "^VH_C02_(ints|floats|float_precision|time|duration|hex)$"},
         "level": "model_checking",
         "bounds": {
             "text": "strings and []byte of 0..2 (thorough 3) symbolic bytes: the encoder output, decoded by the harness's own unescaper, equals the input with every invalid UTF-8 byte replaced by U+FFFD (own RFC 3629 recogniser, independent of unicode/utf8); AppendBytes == AppendString; keys like values; hex nibbles",
@@ -79,6 +80,7 @@ PROPS = {
         "groups": [{"name": "cbor", "tags": "verif", "run": "^VH_C08_", "flags": {"harness-timeout": 280},
                     "quick": {"params": "strlen=2,members=2"},
                     "thorough": {"params": "strlen=3,members=3", "harness-timeout": 3000, "max-paths": 5000000}}],
+        "cross_solver": {"run": "^VH_C08_(ints|floats|simple|time)$"},
         "level": "model_checking",
         "bounds": {
             "primitives": "for every value kind, J = json.Encoder.P(v), C = cbor.Encoder.P(v), D = Cbor2JsonManyObjects(C); text, keys, []byte and hex with 0..2 (thorough 3) symbolic bytes must be byte-identical (a genuine differential between the two hand-written escapers); integers of every width over their full range and floats over all bit patterns must denote the same number (token arguments compared by the solver; NaN/Inf as the same strings); whole-second timestamps, IPv4/IPv6/MAC/prefix, embedded JSON, RawCBOR data URL, bool, nil, durations; slices of strings/bools/ints/uints/floats",
@@ -94,6 +96,7 @@ PROPS = {
              "quick": {"params": "strlen=2,keylen=0,symkeylen=1,errslice=2,pairs=0"},
              "thorough": {"params": "strlen=3,keylen=1,symkeylen=2,errslice=3,pairs=1", "harness-timeout": 2400}},
         ],
+        "cross_solver": {"run": "^VH_C09_(type_prefix|ints|floats)$", "group": "prim"},
         "level": "model_checking",
         "bounds": {
             "primitives": "appendCborTypePrefix and every AppendInt*/AppendUint* for all 2^64 argument values (symbolic); AppendFloat32/64 all bit patterns; definite-length strings/bytes/embedded JSON/embedded CBOR/hex at lengths 0,1,22,23,24,25,255,256,257,65535,65536 (concrete lengths, symbolic first/last payload byte); every slice encoder at element counts 0,1,2,23,24,25,256; tags 1/63/260/261/262/263",
@@ -106,6 +109,7 @@ PROPS = {
         "groups": [{"name": "cbor", "tags": "verif", "run": "^VH_C17_", "flags": {"harness-timeout": 280},
                     "quick": {"params": "n=3,tail=1,cutextra=0"},
                     "thorough": {"params": "n=4,tail=2,cutextra=1", "harness-timeout": 3000, "max-paths": 5000000}}],
+        "cross_solver": {"run": "^VH_C17_(long_heads_tag260|long_heads_tag261|cut_bool)$"},
         "level": "model_checking",
         "bounds": {
             "quick": "arbitrary inputs of 0..3 symbolic bytes through Cbor2JsonManyObjects and the three Decode* entry points; directed inputs = [context prefix] + head of every major type with additional information 24..31 + fully symbolic 1/2/4/8-byte argument + 0..1 arbitrary byte, in 8 contexts (top level, inside indefinite map, inside indefinite array, behind tags 1, 63, 260, 261, 263); cut points: every prefix of two-event streams built with the real encoder (8 value kinds, symbolic values)",
@@ -153,6 +157,7 @@ PROPS = {
     "C18": {
         "groups": [{"name": "hlog", "tags": "verif", "run": "^VH_C18_",
                     "quick": {"params": "ops=3"}, "thorough": {"params": "ops=5", "harness-timeout": 3000, "max-paths": 5000000}}],
+        "cross_solver": {"run": "^VH_C18_(access|isolation)$"},
         "level": "model_checking",
         "bounds": {
             "accounting": "mutil.WrapWriter over the three capability sets (basic / +Flusher / +CloseNotifier+Hijacker+ReaderFrom); every sequence of 3 (thorough 5) operations among WriteHeader(symbolic code), Write(0..2 bytes), ReadFrom, Flush, with the underlying writer accepting a symbolic count n in [0,len] (ReadFrom: any n in [0,2^40)) and returning a symbolic error; Status()/BytesWritten() compared with a reference model after every operation; AccessHandler hands exactly those numbers to its callback. Precondition tee == nil (Tee is not reachable from package hlog).",
@@ -175,6 +180,7 @@ PROPS = {
             {"name": "bv", "tags": "verif", "run": "^VH_C13_(basic_edge|basic_atomic|burst_step|burst_history|level)$",
              "quick": {"params": "history=3"}, "thorough": {"params": "history=5"}},
         ],
+        "cross_solver": {"run": "^VH_C13_(basic_edge|burst_step|level)$", "group": "bv"},
         "level": "model_checking",
         "bounds": {
             "basic": "one Sample step from an arbitrary 32-bit counter c < 2^32-1 and arbitrary N >= 2 (no bound; symbolic-by-symbolic 32-bit division decided by cvc5 --solve-bv-as-int=sum); N=0, N=1 and the first event from a fresh sampler separately",
@@ -187,6 +193,7 @@ PROPS = {
     "C14": {
         "groups": [{"name": "json", "tags": "verif", "run": "^VH_C14_",
                     "quick": {"params": "dests=2,events=2"}, "thorough": {"params": "dests=3,events=3", "harness-timeout": 3000, "max-paths": 5000000}}],
+        "cross_solver": {"run": "^VH_C14_no_handler$"},
         "level": "model_checking",
         "bounds": {"quick": "<= 2 destinations x <= 2 events", "thorough": "<= 3 destinations x <= 3 events",
                    "faults": "every destination call returns a symbolic (n, err): n any int in [0, len(p)], err nil or the destination's error; destinations are LevelWriters, plain io.Writers (LevelWriterAdapter) or FilteredLevelWriters with a symbolic level"},
@@ -195,6 +202,7 @@ PROPS = {
     "C15": {
         "groups": [{"name": "json", "tags": "verif", "run": "^VH_C15_",
                     "quick": {"params": "ops=3"}, "thorough": {"params": "ops=5", "harness-timeout": 3000}}],
+        "cross_solver": {"run": "^VH_C15_"},
         "level": "model_checking",
         "bounds": {"quick": "histories of 3 operations (WriteLevel / Trigger / Close)", "thorough": "histories of 5 operations",
                    "values": "ConditionalLevel, TriggerLevel and every line level symbolic over int8 (level 10 excluded as the property states); line = one symbolic non-newline byte + newline (two_lines: 2+1 bytes); bytes.Buffer executed from its real SSA; destination errors and concurrency outside"},
@@ -202,6 +210,7 @@ PROPS = {
     },
     "C04": {
         "groups": [{"name": "json", "tags": "verif", "run": "^VH_C04_", "flags": {"gen": True}}],
+        "cross_solver": {"run": "^VH_C04_(should|emit|withlevel_special|panic)$"},
         "level": "model_checking",
         "bounds": {
             "levels": "logger level, global level, event level: all 256 int8 values each, symbolic (no bound)",
